@@ -149,7 +149,7 @@ func c04Directed(r *hx.Run, w *W, ps *plans, i int, t int64, refetch bool) {
 	first := w.Cl.Do(rq)
 	t0 := w.Clock.Now()
 	if first.Label != "fetching" {
-		r.Inconclusive("directed: first request not a fetch")
+		r.InconclusiveCase("directed: first request not a fetch")
 		return
 	}
 	w.Clock.Advance(t) // elapsed == T: still a legal hit
@@ -158,7 +158,7 @@ func c04Directed(r *hx.Run, w *W, ps *plans, i int, t int64, refetch bool) {
 	go func() { done <- w.Cl.Do(rq) }()
 	if !h.WaitArrived(10 * time.Second) {
 		w.Pts.Disarm(h)
-		r.Inconclusive("directed: request did not reach cache.beforeAge")
+		r.InconclusiveCase("directed: request did not reach cache.beforeAge")
 		<-done
 		return
 	}
